@@ -178,6 +178,11 @@ def check_builder(ctx, rule):
     for p in paths:
         tag = "" if len(paths) == 1 else " [" + ", ".join(("" if c else "not ") + d[:60] for _k, c, d in p.decisions) + "]"
         _check_builder_table(ctx, rule, P, q, f, it, p, tag)
+    # the row states (temperature, pressure) are stored in double precision: nothing allocated "like" the pressure grid
+    # inherits an integer type from a grid written with integer literals (the default maximum pressure is an integer)
+    from .dtypes import check_like_over_integer_grid
+
+    check_like_over_integer_grid(ctx, rule, f)
     _check_sutton_order(ctx, rule, P)
 
 
